@@ -108,9 +108,14 @@ type SliceVal struct {
 	Base          PtrVal // pointer to the backing *ArrVal; Obj==0 => nil slice
 	Off, Len, Cap int
 	Kind          uint8
-	LenT          *Term // for Blob/Iota (width 64)
+	LenT          *Term // Blob/Iota: the length (width 64); SliceNormal: non-nil => the length is symbolic (0<=LenT<=Cap), Len is poisoned
 	NonNil        bool  // zero-length but non-nil slice without backing
 }
+
+// symLenPoison is stored in Len of a slice whose length is symbolic, so that code unaware of LenT fails loudly.
+const symLenPoison = 1 << 40
+
+func (s SliceVal) SymLen() bool { return s.Kind == SliceNormal && s.LenT != nil }
 
 func (s SliceVal) IsNil() bool { return s.Base.Obj == 0 && !s.NonNil && s.Kind == SliceNormal }
 
